@@ -34,6 +34,7 @@ Obj(k, v, l) == [k |-> k, v |-> v, l |-> l]
 (*   lx1   label x = 1                 lx0   label x = 0                   *)
 (*   nsa   the key "a"                 nlx1  not(lx1)                      *)
 (*   fnx0  an opaque function that accepts label x = 0                     *)
+(*   anx0 / anx1  And(Null, FN(x=0)) / And(Null, FN(x=1))                  *)
 (***************************************************************************)
 AcceptKL(f, k, l) ==
   CASE f = "null" -> TRUE
@@ -43,6 +44,8 @@ AcceptKL(f, k, l) ==
     [] f = "fnx0" -> l = 0
     [] f = "nlx1" -> l # 1
     [] f = "nsa"  -> k = "a"
+    [] f = "anx0" -> l = 0      \* And(Null, FN(label x = 0)): comparable shell around an opaque function
+    [] f = "anx1" -> l = 1      \* And(Null, FN(label x = 1))
     [] OTHER      -> FALSE     \* unknown names are reported by the trace specs (class unknown-filter)
 Accept(f, o) == AcceptKL(f, o.k, o.l)
 AcceptE(f, k, e) == AcceptKL(f, k, e.l)
